@@ -19,7 +19,7 @@ func init() {
 		ID:      "C07",
 		Run:     runC07,
 		NeedSSA: true,
-		Level:   "Static analysis (call-graph reachability from the parser entry point on go/ssa + VTA; containment rule on the entry point; abstract interpretation with guard prover, loop-head invariants and child post-conditions for every reachable function). Decides: contain/Parse — the entry point installs, before anything else, a deferred function that recovers and assigns the error result, and rejects inputs shorter than a header; every index/slice/nil-dispatch/type-assertion panic in any function reachable from it (transitively, including the packet-header decoders reached through packet-in) is therefore returned as an error — each of the reachable index/slice sites is additionally reported as proved in range or as contained; nogo — no reachable function starts a goroutine (a panic there would escape the recover); exit — no reachable function can end the process (os.Exit, log.Fatal*, logrus Fatal*, runtime.Goexit); recursion — every cycle of the reachable call graph passes a strictly shorter input on a call edge (stack depth proportional to the input; a stack overflow is not recoverable); progress/<func>/<loop> — every loop of every reachable function ranges over a slice or has a cursor that grows by >= 1 on every back path and is bounded (loop condition against a loop-invariant bound, verified invariant cursor <= len(input), or a guard every completed iteration passed); alloc/<func>/<site> — allocation sizes are bounded by wire fields of at most 16 bits or by the input length; result/Parse — no path of the entry point returns neither a message nor an error. Together: for every byte string the parser returns a message or an error, does not panic, and every loop advances. Not decided: wall-clock constants; memory retained by append in loops beyond the per-iteration bound.",
+		Level:   "Static analysis (call-graph reachability from the parser entry point on go/ssa + VTA; containment rule on the entry point; abstract interpretation with guard prover, loop-head invariants and child post-conditions for every reachable function). Decides: contain/Parse — the entry point installs, before anything else, a deferred function that recovers and assigns the error result, and rejects inputs shorter than a header; every index/slice/nil-dispatch/type-assertion panic in any function reachable from it (transitively, including the packet-header decoders reached through packet-in) is therefore returned as an error — each of the reachable index/slice sites is additionally reported as proved in range or as contained; nogo — no reachable function starts a goroutine (a panic there would escape the recover); exit — no reachable function can end the process (os.Exit, log.Fatal*, logrus Fatal*, runtime.Goexit); recursion — every cycle of the reachable call graph passes a strictly shorter input on a call edge (stack depth proportional to the input; a stack overflow is not recoverable); progress/<func>/<loop> — every loop of every reachable function ranges over a slice or has a cursor that grows by >= 1 on every back path and is bounded (loop condition against a loop-invariant bound, verified invariant cursor <= len(input), or a guard every completed iteration passed); alloc/<func>/<site> — allocation sizes are bounded by wire fields of at most 16 bits or by the input length; result/Parse — no path of the entry point returns neither a message nor an error. Together: for every byte string the parser returns a message or an error, does not panic, and every loop advances. Not decided: wall-clock constants; memory retained by append in loops beyond the per-iteration bound. Also decided: reparse — a decoder re-enters the parser entry point at most once and outside loops (cost of nested messages linear in the frame).",
 		Assumptions: []string{
 			"a deferred recover() catches every run-time panic of its goroutine except fatal errors (stack overflow, concurrent map access); recursion depth is bounded by the recursion rule",
 			"the VTA call graph over-approximates the calls reachable from the entry point (closed world for util.Message implementations)",
